@@ -340,12 +340,32 @@ class CTime(object):
 
 # ------------------------------------------------------------------------------
 #
-def explore(run_one, bound, max_exec=None):
+def children(sched, prefix, bound):
+    '''the schedules which deviate once more than `sched` does, after prefix'''
+    pts, chs = sched.points, sched.choices
+    cost, costs = 0, list()
+    for (order, running), c in zip(pts, chs):
+        costs.append(cost)
+        if c != order[0]:
+            cost += 1
+    out = list()
+    for i in range(len(chs) - 1, len(prefix) - 1, -1):
+        order, running = pts[i]
+        if costs[i] + 1 > bound:
+            continue
+        for alt in reversed(order[1:]):
+            out.append(chs[:i] + [alt])
+    return out
+
+
+def explore(run_one, bound, max_exec=None, roots=None):
     '''
     run_one(prefix) -> (sched, result).  Enumerates all schedules which deviate
     from the default scheduler at most `bound` times.  Yields (sched, result).
+    `roots`: explore only the subtrees below these prefixes (the subtrees of
+    `children()` of one execution are disjoint: work can be split)
     '''
-    stack = [[]]
+    stack = [[]] if roots is None else [list(r) for r in reversed(roots)]
     n = 0
     while stack:
         prefix = stack.pop()
